@@ -250,6 +250,20 @@ def _canon_tuple_assign(tree: ast.AST) -> int:
     return n
 
 
+def _canon_membership(tree: ast.AST) -> int:
+    """Normal form: `x in frozenset({a, b})` / `tuple([...])` / `set((...))` / `list(...)` around a collection literal is presented as
+    membership in the literal itself."""
+    n = 0
+    for c in ast.walk(tree):
+        if isinstance(c, ast.Compare) and len(c.ops) == 1 and isinstance(c.ops[0], (ast.In, ast.NotIn)):
+            r = c.comparators[0]
+            if isinstance(r, ast.Call) and isinstance(r.func, ast.Name) and r.func.id in ("frozenset", "set", "tuple", "list") \
+                    and len(r.args) == 1 and not r.keywords and isinstance(r.args[0], (ast.Tuple, ast.List, ast.Set)):
+                c.comparators[0] = r.args[0]
+                n += 1
+    return n
+
+
 def _canon_items(tree: ast.AST) -> int:
     """Normal form: `for k in d:` whose first statement is `v = d[k]` (d a name or attribute chain, v bound nowhere else in the
     loop) is presented to the rules as `for k, v in d.items():`."""
@@ -326,13 +340,45 @@ class Index:
         # spelling-level normal forms are applied; real tree and overlays alike
         from .normalform import inline_private_helpers
         self.inlined = inline_private_helpers({mi.path: mi.tree for mi in self.modules.values()})
+        from .normalform import inline_new_constants
+        self.inlined += inline_new_constants({mi.path: mi.tree for mi in self.modules.values()})
         from .normalform import dehoist_chains
         self.dehoisted = 0
         for mi in self.modules.values():
             self.dehoisted += dehoist_chains(mi.tree)
-            self.canonicalised += _canon_returns(mi.tree) + _canon_augassign(mi.tree) + _canon_items(mi.tree) + _canon_allany(mi.tree) + _canon_tuple_assign(mi.tree)
+            self.canonicalised += _canon_returns(mi.tree) + _canon_augassign(mi.tree) + _canon_items(mi.tree) + _canon_allany(mi.tree) + _canon_tuple_assign(mi.tree) + _canon_membership(mi.tree)
         for mi in self.modules.values():
             self._scan_module(mi)
+        self._publish_predicates()
+
+    def _publish_predicates(self) -> None:
+        """Single-expression predicate methods (plain or static, body = `return <boolean expression over self and the parameters>`),
+        unique by name in the repository, are handed to the flow-graph builder: a branch on `self.pred(x)` is a branch on the
+        predicate's expression."""
+        from . import cfg as _cfg
+        by_name: Dict[str, List[ast.FunctionDef]] = {}
+        for mi in self.modules.values():
+            for c in ast.walk(mi.tree):
+                if isinstance(c, ast.ClassDef):
+                    for m in c.body:
+                        if isinstance(m, ast.FunctionDef):
+                            by_name.setdefault(m.name, []).append(m)
+        preds: Dict[str, ast.FunctionDef] = {}
+        from .normalform import rule_names
+        known = rule_names()
+        for nm, defs in by_name.items():
+            if len(defs) != 1 or nm.startswith("__") or nm in known:
+                continue  # a predicate a rule names is an anchor of that rule and is analysed as a function of its own
+            m = defs[0]
+            decos = [ast.unparse(d) for d in m.decorator_list]
+            if any(d != "staticmethod" for d in decos):
+                continue
+            body = [st for st in m.body if not (isinstance(st, ast.Expr) and isinstance(st.value, ast.Constant))]
+            if len(body) == 1 and isinstance(body[0], ast.Return) and isinstance(body[0].value, (ast.BoolOp, ast.Compare, ast.UnaryOp)) \
+                    and not any(isinstance(x, (ast.Lambda, ast.NamedExpr, ast.Await, ast.Yield)) for x in ast.walk(body[0].value)):
+                preds[nm] = m
+        _cfg.set_predicates(preds)
+        self.predicates = sorted(preds)
 
     def _scan_imports(self, mi: ModuleInfo) -> None:
         pkg = mi.name if mi.path.endswith("__init__.py") else mi.name.rsplit(".", 1)[0]
